@@ -100,6 +100,11 @@ CLAIMS = {
         text="Static decision of the wiring of the depletion loop only (a minority of the statement): which state is written before the solve, which phase is solved, which duration and current reach the callback, that the phase index advances once after use, that the log append is guarded by the loop condition on the new state and accumulates time, that the log starts with the probed state, and that a non-Source target is rejected first.",
         note=TB + "Not decided: the values of the currents (the solver's iteration count is dropped by batt_life; observed, no rule armed), strict monotonicity of time (needs duration > 0), termination.",
         ref="DESIGN.md section 4 C18"),
+    "C19": dict(
+        technique="truth-table comparison of the node-placement conditions; structural rules on the edge loop, legend and override order; definite-alias store analysis (shared with C17); term identity for the colour mix and for the decimals of every SI band; role-based pandas-selection records for colour / label / legend sources",
+        text="Static decision of the structure of the graph that is built: every component added exactly once (cluster iff grouping on and group non-empty), one edge per graph edge through the inverse name map, legend only for heat diagrams, override precedence default -> kind -> name, no mutation of configuration or defaults, the heat mix / scale / duration-weighted mean, own-row label and colour, and the SI band table (three significant digits).",
+        note=TB + "Not decided: what Graphviz renders from the graph. Several rules in this module read one small function by role (the frame that gets the 'Mix' column, the accumulator pair of the phase loop); a refactor outside the accepted shapes ends in ANALYSIS-ERROR.",
+        ref="DESIGN.md section 4 C19"),
     "C20": dict(
         category="proof",
         technique="exact rational normal forms of straight-line functions; identities discharged by cross-multiplication",
